@@ -225,3 +225,164 @@ func VerifC17_Response() {
 	}
 	vrt.Assert(rec.bodySet == wbodySet && (wbodySet == 0 || vrt.BytesEq(rec.body, 0, len(rec.body), wbody, 0, len(wbody))), "C17.response.raw-body")
 }
+
+func init() { vrt.Register("VerifC17_ResponseNested", VerifC17_ResponseNested) }
+
+// VerifC17_ResponseNested: struct Outer{1: Sub sub; 2: string tail}, Sub{1: string h (api.header "X-I");
+// 2: string m (api.<ML...> = "m"); 3: i32 p}: the mapping of fields one level below the root.
+func VerifC17_ResponseNested() {
+	list := verifC17RespLists[vrt.Param("ML")]
+	pres := vrt.Param("PRES") // bit 0 h, 1 m, 2 p (inside sub), bit 3 tail
+	sub := thrift.VerifNewStruct("Sub", 4)
+	fh := thrift.VerifAddField(sub, thrift.VField{ID: 1, Name: "h", Type: thrift.VerifBasic(thrift.STRING), Req: 2}, thrift.Options{})
+	fm := thrift.VerifAddField(sub, thrift.VField{ID: 2, Name: "m", Type: thrift.VerifBasic(thrift.STRING), Req: 2}, thrift.Options{})
+	thrift.VerifAddField(sub, thrift.VField{ID: 3, Name: "p", Type: thrift.VerifBasic(thrift.I32), Req: 2}, thrift.Options{})
+	thrift.VerifAddHTTP(sub, fh, annotation.VerifHTTP(3, "X-I"))
+	var hms []thrift.HttpMapping
+	for _, k := range list {
+		hms = append(hms, annotation.VerifHTTP(k, "m"))
+	}
+	thrift.VerifAddHTTP(sub, fm, hms...)
+	thrift.VerifBuild(sub)
+	st := thrift.VerifStruct("Outer", thrift.Options{},
+		thrift.VField{ID: 1, Name: "sub", Type: sub, Req: 2},
+		thrift.VField{ID: 2, Name: "tail", Type: thrift.VerifBasic(thrift.STRING), Req: 2})
+
+	opts := conv.Options{EnableHttpMapping: vrt.Bool(), WriteHttpValueFallback: vrt.Bool(), OmitHttpMappingErrors: vrt.Bool()}
+	rec := &verifResp{failHdr: vrt.Bool()}
+	pv := int32(vrt.U32())
+	sv := func(tag byte) []byte {
+		c := vrt.U8()
+		vrt.Assume(c >= 0x20 && c < 0x7f)
+		return []byte{tag, c}
+	}
+	hv, mv, tv := sv('h'), sv('m'), sv('t')
+	var in []byte
+	in = vrt.PutField(in, vrt.TSTRUCT, 1)
+	if pres&1 != 0 {
+		in = vrt.PutString(vrt.PutField(in, vrt.TSTRING, 1), hv)
+	}
+	if pres&2 != 0 {
+		in = vrt.PutString(vrt.PutField(in, vrt.TSTRING, 2), mv)
+	}
+	if pres&4 != 0 {
+		in = vrt.PutBE32(vrt.PutField(in, vrt.TI32, 3), int(pv))
+	}
+	in = append(in, 0)
+	if pres&8 != 0 {
+		in = vrt.PutString(vrt.PutField(in, vrt.TSTRING, 2), tv)
+	}
+	in = append(in, 0)
+
+	type member struct {
+		key string
+		isS bool
+		s   []byte
+		i   int64
+	}
+	var body []member
+	wantErr := false
+	var whk []string
+	var whv [][]byte
+	var wck []string
+	var wcv [][]byte
+	var wbody []byte
+	wbodySet := 0
+	deliver := func(kinds []int, key string, text []byte) bool {
+		for _, k := range kinds {
+			ok := false
+			switch k {
+			case 3:
+				if !rec.failHdr {
+					whk, whv, ok = append(whk, key), append(whv, text), true
+				}
+			case 4:
+				wck, wcv, ok = append(wck, key), append(wcv, text), true
+			case 7:
+				wbody, wbodySet, ok = text, wbodySet+1, true
+			case 9:
+				ok = true
+			}
+			if ok {
+				return true
+			}
+			if !opts.OmitHttpMappingErrors {
+				wantErr = true
+				return false
+			}
+		}
+		return false
+	}
+	field := func(bit int, kinds []int, hkey string, name string, text []byte, num int64, isNum bool) {
+		if pres&bit == 0 || wantErr {
+			return
+		}
+		if opts.EnableHttpMapping && len(kinds) > 0 {
+			if deliver(kinds, hkey, text) || wantErr {
+				return
+			}
+			if !opts.WriteHttpValueFallback {
+				return
+			}
+		}
+		body = append(body, member{key: name, isS: !isNum, s: text, i: num})
+	}
+	field(1, []int{3}, "X-I", "h", hv, 0, false)
+	field(2, list, "m", "m", mv, 0, false)
+	field(4, nil, "", "p", nil, int64(pv), true)
+
+	vrt.GhostReset()
+	cv2 := NewBinaryConv(opts)
+	out, err := cv2.Do(verifCtx{Context: context.Background(), resp: rec}, st, in)
+	if wantErr {
+		vrt.Reach("error")
+		vrt.Assert(err != nil, "C17.response.nested.mapping-error.reported")
+		return
+	}
+	vrt.Assert(err == nil, "C17.response.nested.converts")
+	if err != nil {
+		return
+	}
+	vrt.Reach("converted")
+	root, ok := vrt.JParse(out)
+	vrt.Assert(ok && root.Kind == vrt.JObject, "C17.response.nested.body.valid-json")
+	if !ok || root.Kind != vrt.JObject {
+		return
+	}
+	wantTop := 1
+	if pres&8 != 0 {
+		wantTop = 2
+	}
+	vrt.Assert(len(root.Keys) == wantTop && root.Elems[0].Kind == vrt.JObject, "C17.response.nested.body.shape")
+	if len(root.Keys) != wantTop || root.Elems[0].Kind != vrt.JObject {
+		return
+	}
+	if pres&8 != 0 {
+		vrt.Assert(verifStrIs(out, root.Elems[1], tv), "C17.response.nested.body.tail")
+	}
+	subn := root.Elems[0]
+	vrt.Assert(len(subn.Keys) == len(body), "C17.response.nested.body.members")
+	if len(subn.Keys) == len(body) {
+		for i, m := range body {
+			vrt.Assert(verifStrIs(out, subn.Keys[i], []byte(m.key)), "C17.response.nested.body.key")
+			if m.isS {
+				vrt.Assert(verifStrIs(out, subn.Elems[i], m.s), "C17.response.nested.body.string-value")
+			} else {
+				vrt.Assert(verifIntIs(out, subn.Elems[i], m.i), "C17.response.nested.body.int-value")
+			}
+		}
+	}
+	vrt.Assert(len(rec.hk) == len(whk), "C17.response.nested.headers.count")
+	if len(rec.hk) == len(whk) {
+		for i := range whk {
+			vrt.Assert(rec.hk[i] == whk[i] && vrt.BytesEq([]byte(rec.hv[i]), 0, len(rec.hv[i]), whv[i], 0, len(whv[i])), "C17.response.nested.header")
+		}
+	}
+	vrt.Assert(len(rec.ck) == len(wck), "C17.response.nested.cookies.count")
+	if len(rec.ck) == len(wck) {
+		for i := range wck {
+			vrt.Assert(rec.ck[i] == wck[i] && vrt.BytesEq([]byte(rec.cv[i]), 0, len(rec.cv[i]), wcv[i], 0, len(wcv[i])), "C17.response.nested.cookie")
+		}
+	}
+	vrt.Assert(rec.bodySet == wbodySet && (wbodySet == 0 || vrt.BytesEq(rec.body, 0, len(rec.body), wbody, 0, len(wbody))), "C17.response.nested.raw-body")
+}
